@@ -180,7 +180,8 @@ pub fn gen_c02(rng: &mut Rng, n: usize, out: &mut Vec<String>) {
         if i % 40 == 21 {
             // documentation blocks whose length passes a power of two inside a multi-byte character (a cap, a buffer
             // or a truncation at such a size must not cut a character): declarations, parameters and variables
-            let cap = *rng.pick(&[64usize, 128, 256, 512, 1024, 2048, 4096, 8192, 16384, 65536]);
+            // (the two large sizes rarely: a 64 KiB block costs seconds in the model)
+            let cap = if rng.chance(1, 12) { 16384usize } else { *rng.pick(&[64usize, 128, 256, 512, 1024, 2048, 4096, 8192]) };
             let wide = *rng.pick(&["\u{e4}", "\u{20ac}", "\u{1F600}"]);
             let width = 40 + rng.below(60);
             let mut doc = String::new();
@@ -225,7 +226,7 @@ pub fn gen_c02(rng: &mut Rng, n: usize, out: &mut Vec<String>) {
             // valid corner programs (leading white space, comments between keyword and name, nested calls), every
             // handler at every identifier, at 0:0 and behind every `(` and `,`
             let mut tmp = vec![];
-            let w = i / 50 + 3 * rng.below(4);
+            let w = (i / 50) * 4 + rng.below(4);
             crate::ops_feat::gen_corner_docs(rng, w, &mut tmp);
             out.extend(tmp.into_iter().filter(|l| !l.starts_with("SPEC") && !l.starts_with("JUDGE")));
         }
